@@ -31,23 +31,23 @@ type routeTag struct {
 	opts       []string
 	text       string
 	// denotation (filled by the generator)
-	proto    string
-	weight   string // "" = none
-	redirect string // url
-	redirCode string
-	plainOpts []string // options passed through to 'opts'
+	proto       string
+	weight      string // "" = none
+	redirect    string // url
+	redirCode   string
+	plainOpts   []string // options passed through to 'opts'
 	expressible bool
 }
 
 type registration struct {
-	name       string
-	svcAddr    string
-	nodeAddr   string
-	port       int
-	routeTags  []routeTag
-	otherTags  []string
+	name        string
+	svcAddr     string
+	nodeAddr    string
+	port        int
+	routeTags   []routeTag
+	otherTags   []string
 	expressible bool // name and other tags can be written in the command language
-	odd        bool // contains something outside [A-Za-z0-9._/:=-]
+	odd         bool // contains something outside [A-Za-z0-9._/:=-]
 }
 
 var oddNames = []string{"svc with space", "svc\ttab", "", "svc\"quote", "ünï-svc", "svc\\back", "svc'q", "svc\nnl", "a", "route", "tags"}
